@@ -38,7 +38,24 @@ def check_C03(report, tier, seed):
     S.suite_decode(report, tier, seed, "C03")
 
 
-CHECKS = {"C02": check_C02, "C03": check_C03}
+def check_C16(report, tier, seed):
+    import suites_validate as S
+    report.rule = ("packets for the validators: valid shapes plus lengths around 65535/65536, topic filters over the alphabet "
+                   "{/,+,#,$share,a,b,''}, zero aliases, bound ids; settings drawn around each packet's encoded size; distinct by (settings, packet)")
+    gv.theorem_obligations(report, "GV/Props/C16.lean", "GV.Props.C16", audit=True)
+    S.suite_validate(report, tier, seed, "C16")
+
+
+def check_C17(report, tier, seed):
+    import suites_alias as S
+    report.rule = ("resolver sessions: kind in {null, manual, lru(0..65535)}, 1-3 connections with server maxima 0..65535, up to 40 "
+                   "resolutions over topic pools above and below the maximum; inbound sessions with alias 0/in range/above, empty topics; "
+                   "distinct by the whole session script")
+    gv.theorem_obligations(report, "GV/Props/C17.lean", "GV.Props.C17", audit=True)
+    S.suite_alias(report, tier, seed, "C17")
+
+
+CHECKS = {"C02": check_C02, "C03": check_C03, "C16": check_C16, "C17": check_C17}
 
 
 def main():
